@@ -83,7 +83,7 @@ Section Oracles.
 
   (* ---------- Activation.Validate, ActivationClaims.validateWithTimeChecks / Validate ---------- *)
   Lemma vc_activation_claims now (tc : bool) (cd : claims_data) (a : activation) (vr : list go_issue) :
-    V2.ActivationClaims_validateWithTimeChecks (at_subject a) (at_type a) (cd_exp cd) (cd_nbf cd) (at_issuer_account a) is_acct now vr tc
+    V2.ActivationClaims_validateWithTimeChecks (at_subject a) (at_type a) (at_issuer_account a) (cd_exp cd) (cd_nbf cd) is_acct now vr tc
     = vr ++ map goi (v_activation_claims now role_of tc cd a).
   Proof.
     unfold V2.ActivationClaims_validateWithTimeChecks, V2.Activation_Validate, V2.Activation_IsService, V2.Activation_IsStream,
@@ -92,19 +92,19 @@ Section Oracles.
     rewrite !vc_subject. destruct tc; rewrite ?vc_claims_data; rewrite !map_app, !map_when; factor_reports; reflexivity.
   Qed.
   Lemma vc_activation_validate now (cd : claims_data) (a : activation) (vr : list go_issue) :
-    V2.ActivationClaims_Validate (at_subject a) (at_type a) (cd_exp cd) (cd_nbf cd) (at_issuer_account a) is_acct now vr
+    V2.ActivationClaims_Validate (at_subject a) (at_type a) (at_issuer_account a) (cd_exp cd) (cd_nbf cd) is_acct now vr
     = vr ++ map goi (v_activation_claims now role_of true cd a).
   Proof. exact (vc_activation_claims now true cd a vr). Qed.
 
   (* ---------- authorization request / response, generic ---------- *)
   Lemma vc_auth_request now (cd : claims_data) (k : string) (vr : list go_issue) :
-    V2.AuthorizationRequestClaims_Validate (cd_exp cd) (cd_nbf cd) k is_user now vr = vr ++ map goi (v_auth_request now role_of cd k).
+    V2.AuthorizationRequestClaims_Validate k (cd_exp cd) (cd_nbf cd) is_user now vr = vr ++ map goi (v_auth_request now role_of cd k).
   Proof.
     unfold V2.AuthorizationRequestClaims_Validate, v_auth_request. cbv zeta. rewrite vc_claims_data.
     destruct (k =? ""); rewrite !map_app, ?map_when; factor_reports; reflexivity.
   Qed.
   Lemma vc_auth_response now (cd : claims_data) (r : auth_response) (vr : list go_issue) :
-    V2.AuthorizationResponseClaims_Validate (cd_aud cd) (cd_exp cd) (cd_nbf cd) (ar_error r) (ar_issuer_account r) (ar_jwt r) (cd_sub cd)
+    V2.AuthorizationResponseClaims_Validate (ar_error r) (ar_issuer_account r) (ar_jwt r) (cd_aud cd) (cd_exp cd) (cd_nbf cd) (cd_sub cd)
       is_acct is_server is_user now vr
     = vr ++ map goi (v_auth_response now role_of cd r).
   Proof.
